@@ -48,8 +48,10 @@ def executed(rnd, pid, flavour, extra=None):
     else:
         outcome = ["raise", rnd.choice(RAISES)]
     pre = rnd.choice([[], [], [["sleep", 0.005]], [["ctx"]]])
+    # what is handed to execute need not be a plain (coroutine) function: anything callable that gives the right thing will do
+    how = rnd.choice(["function", "function", "lambda", "wrapped", "partial", "object", "method"])
     return {"id": pid, "flavour": flavour, "executed": True, "args": a, "kwargs": k, "cleanup": {"kind": "none"},
-            "program": pre + (extra or []) + [outcome], "outcome": outcome}
+            "program": pre + (extra or []) + [outcome], "outcome": outcome, "callable": how}
 
 
 def gen_case(rnd, spec):
@@ -174,6 +176,7 @@ def judge(case, run, result):
         st = starts[0]
         result.count("executes_judged")
         result.count("executes_%s_from_%s" % (sp["flavour"], "outside" if call["by"].startswith("driver") else call["by"].rstrip("0123456789")))
+        result.count("executes_of_callable_kind_%s" % sp.get("callable", "function"))
         if not st["args_ok"]:
             problems.append(("execute(%s): payload did not receive exactly the supplied arguments %r %r" % (pid, sp["args"], sp["kwargs"]), None))
         if sp["flavour"] == "asyncio":
@@ -257,6 +260,7 @@ def finish(total, tier):
     need = ["executes_judged", "results_returned_by_identity", "exceptions_raised_by_identity", "runtimes_alive_after_executes",
             "executes_asyncio_from_outside", "executes_trio_from_outside", "executes_threading_from_outside",
             "executes_asyncio_from_tcaller", "executes_trio_from_tcaller", "executes_trio_from_ccaller", "executes_asyncio_from_ccaller"]
+    need += ["executes_of_callable_kind_%s" % k for k in ("function", "lambda", "wrapped", "partial", "object", "method")]
     for name in need:
         if not total.counters.get(name) and not total.violations:
             total.inconc("monitor never observed: " + name)
